@@ -45,6 +45,7 @@ package archiver
 
 //@ func archive$1
 //@   property C06
+//@   replay c02_archiveGiveUp:written-before-return
 //@   requires item != nil && item.url != nil && item.url.request != nil && config.config != nil && config.config.MaxRetry >= 0 && globalArchiver != nil
 //@   requires [clients] (config.config.Proxy == "" ==> globalArchiver.Client != nil) && (config.config.Proxy != "" ==> globalArchiver.ClientWithProxy != nil)
 //@   loop retry invariant [attempts] 0 <= retry && retry <= config.config.MaxRetry && attempts == old(attempts) + retry && config.config != nil && config.config.MaxRetry == old(config.config.MaxRetry) && config.config.Proxy == old(config.config.Proxy) && globalArchiver == old(globalArchiver) && globalArchiver != nil && globalArchiver.Client == old(globalArchiver.Client) && globalArchiver.ClientWithProxy == old(globalArchiver.ClientWithProxy) && req != nil && item.url != nil // C06: each URL is attempted at most --max-retry + 1 times per visit
@@ -66,17 +67,20 @@ package archiver
 //@   ensures [giveup-closed] @C16 gaveUp == 1 ==> http.nOpened() - io.nCloses() == old(http.nOpened() - io.nCloses()) // C16: a fetch that gives up (request error or bad answers until the retries are used up) leaves no response body open
 //@   ensures [giveup-drained] @C02 gaveUp == 1 ==> io.nDrains() - http.nOpened() == old(io.nDrains() - http.nOpened()) // C02: every response the crawler fetched is stored complete (the last bad answer of a fetch that gives up is read to its end before its body is closed)
 //@   attr own-var @C02 @C04 feedbackChan
-//@   assert recv(feedbackChan)#1: [own-channel] @C04 feedbackChan == sentWith && feedbackChan != nil // C04: no URL is reported finished unless it was captured (the fetch waits for the WARC writer on its own request's channel; C02 has the full set of clauses)
+//@   assert recv(*): [own-channel] @C04 feedbackChan == sentWith && feedbackChan != nil // C04: no URL is reported finished unless it was captured (the fetch waits for the WARC writer on its own request's channel; C02 has the full set of clauses)
 //@   local attached chan struct{} = nil
 //@   local sentWith chan struct{} = nil
 //@   assert WithValue(*): [attaches-own] @C02 istype(arg2, chan struct{}) && unbox(arg2, chan struct{}) == feedbackChan && istype(arg1, string) && unbox(arg1, string) == "feedback" // C02: feedback channel in request context (the channel this fetch will wait on is the one put into its request's context under the key the WARC writer looks up)
 //@   after WithValue(*): attached = feedbackChan
-//@   after Do(*): sentWith = attached
-//@   assert recv(feedbackChan)#1: [waits-own] @C02 feedbackChan == sentWith && feedbackChan != nil // C02: archive() blocks on the feedback channel before SetStatus(ItemArchived) (the channel carried by the request that was actually sent)
+//@   local pendingFb int = 0
+//@   after Do(*): sentWith = attached; fbWaited = 0; pendingFb = ite(opResult1 == nil && !config.config.WARCWriteAsync, 1, 0)
+//@   loop retry invariant [written-before-retry] @C02 pendingFb == 0 // C02: with synchronous WARC writing every response the crawler fetched is stored before the seed is finished (a response that is retried has been written - its feedback received - before the next attempt)
+//@   ensures [written-before-return] @C02 pendingFb == 0 // C02: with synchronous WARC writing, by the time a seed is reported finished every response the crawler fetched for it is stored (the fetch of a node returns only after the WARC writer signalled for every response it received, also when it gives up)
+//@   assert recv(*): [waits-own] @C02 feedbackChan == sentWith && feedbackChan != nil // C02: archive() blocks on the feedback channel before SetStatus(ItemArchived) (the channel carried by the request that was actually sent)
 //@   assert SetStatus(*): [own-node] @C01 arg0 == item // C01: each stage only works on nodes at the tree's max depth (the fetch goroutine of a node records the outcome on that node, never on the seed or a sibling)
 //@   ensures [outcome-recorded] @C01 item.status == models.ItemArchived || item.status == models.ItemFailed // C01: every URL in its tree has been fetched, skipped or has failed for good (every fetch ends with its node archived or failed)
 //@   local fbWaited int = 0
-//@   after recv(feedbackChan)#1: fbWaited = 1
+//@   after recv(*): fbWaited = 1; pendingFb = 0
 //@   assert SetStatus(item)#4: [after-feedback] @C02,C04 config.config.WARCWriteAsync || fbWaited == 1 // C02: with synchronous WARC writing the URL is marked archived only after the WARC writer signalled that the records are written
 //@   ensures [retry-bound] attempts <= old(attempts) + old(config.config.MaxRetry) + 1 // C06: each URL is attempted at most --max-retry + 1 times per visit
 //@   ensures [attempted] attempts >= old(attempts) + 1
